@@ -204,6 +204,34 @@ def np_asarray(a, dtype=None, **kw):
     return np_array(a, dtype=dtype, copy=False)
 
 
+def _as_layout(a, dtype, order):
+    """asfortranarray / ascontiguousarray: no copy when the logical dtype and the memory layout already match (the result
+    then ALIASES the argument, exactly as in NumPy - in-place writes to it reach the caller's array)"""
+    a = _unlazy(a)
+    if not isinstance(a, SArr):
+        a = np_array(a, dtype=dtype)
+    elif dtype is not None and _np.dtype(dtype) != a.ldtype:
+        a = a.astype(dtype)
+    if a.ndim == 0:
+        a = a.reshape(1)
+    flags = _raw(a).flags
+    if (flags.f_contiguous if order == 'F' else flags.c_contiguous):
+        return a
+    return a.copy(order=order)
+
+
+def np_asfortranarray(a, dtype=None, **kw):
+    if _conc(a) and not isinstance(a, SArr):
+        return _delegate('asfortranarray', a, dtype=dtype)
+    return _as_layout(a, dtype, 'F')
+
+
+def np_ascontiguousarray(a, dtype=None, **kw):
+    if _conc(a) and not isinstance(a, SArr):
+        return _delegate('ascontiguousarray', a, dtype=dtype)
+    return _as_layout(a, dtype, 'C')
+
+
 def np_copy(a, **kw):
     return _as_sarr(a).copy()
 
@@ -342,6 +370,8 @@ def np_mean(a, axis=None, dtype=None, keepdims=False, **kw):
 
 
 def np_max(a, axis=None, out=None, keepdims=False, initial=None, where=True, **kw):
+    if out is not None:
+        raise Unsupported('max(out=...) is not modelled')
     a = _unlazy(a)
     if isinstance(a, (list, tuple)):
         a = np_array(a)
@@ -352,6 +382,8 @@ def np_max(a, axis=None, out=None, keepdims=False, initial=None, where=True, **k
 
 
 def np_min(a, axis=None, out=None, keepdims=False, initial=None, where=True, **kw):
+    if out is not None:
+        raise Unsupported('min(out=...) is not modelled')
     a = _unlazy(a)
     if isinstance(a, (list, tuple)):
         a = np_array(a)
@@ -400,6 +432,8 @@ def _lt_nan(c, best):
 
 
 def np_argmax(a, axis=None, out=None, **kw):
+    if out is not None:
+        raise Unsupported('argmax(out=...) is not modelled')
     a = _unlazy(a)
     if isinstance(a, (list, tuple)):
         a = np_array(a)
@@ -409,6 +443,8 @@ def np_argmax(a, axis=None, out=None, **kw):
 
 
 def np_argmin(a, axis=None, out=None, **kw):
+    if out is not None:
+        raise Unsupported('argmin(out=...) is not modelled')
     a = _unlazy(a)
     if isinstance(a, (list, tuple)):
         a = np_array(a)
@@ -418,6 +454,8 @@ def np_argmin(a, axis=None, out=None, **kw):
 
 
 def np_all(a, axis=None, out=None, keepdims=False, **kw):
+    if out is not None:
+        raise Unsupported('all(out=...) is not modelled')
     a = _unlazy(a)
     if isinstance(a, (SVal, bool, _np.bool_)):
         return ufuncs._truth(a) if isinstance(a, SVal) else _np.bool_(a)
@@ -427,6 +465,8 @@ def np_all(a, axis=None, out=None, keepdims=False, **kw):
 
 
 def np_any(a, axis=None, out=None, keepdims=False, **kw):
+    if out is not None:
+        raise Unsupported('any(out=...) is not modelled')
     a = _unlazy(a)
     if isinstance(a, (SVal, bool, _np.bool_)):
         return ufuncs._truth(a) if isinstance(a, SVal) else _np.bool_(a)
@@ -620,6 +660,8 @@ def np_unique(ar, return_index=False, return_inverse=False, return_counts=False,
 
 
 def np_concatenate(arrs, axis=0, out=None, dtype=None, **kw):
+    if out is not None:
+        raise Unsupported('concatenate(out=...) is not modelled')
     arrs = [_unlazy(x) for x in arrs]
     if all(_conc(x) for x in arrs):
         return _delegate('concatenate', list(arrs), axis=axis, dtype=dtype)
@@ -801,6 +843,8 @@ def np_issubdtype(a, b):
 
 
 def np_dot(a, b, out=None):
+    if out is not None:
+        raise Unsupported('dot(out=...) is not modelled')
     return np_matmul(a, b, _dot=True)
 
 
@@ -911,13 +955,21 @@ def np_searchsorted(a, v, side='left', sorter=None):
 
 def np_clip(a, a_min=None, a_max=None, out=None, **kw):
     a = _unlazy(a)
-    if _conc(a) and _conc(a_min) and _conc(a_max):
+    if _conc(a) and _conc(a_min) and _conc(a_max) and out is None:
         return _delegate('clip', a, a_min, a_max)
     r = _as_sarr(a)
     if a_min is not None:
         r = _np.maximum(r, a_min)
     if a_max is not None:
         r = _np.minimum(r, a_max)
+    if out is not None:
+        if isinstance(out, SArr):
+            out[...] = r
+        elif isinstance(r, SArr) and not r.is_concrete():
+            raise Unsupported('clip writing symbolic values into a real ndarray')
+        else:
+            out[...] = r.typed() if isinstance(r, SArr) else r
+        return out
     return r
 
 
